@@ -129,7 +129,7 @@ def _lookup_elem(cmd, fd, key, fmt):
         value = bytearray(calcsize(fmt))
     addr = addressof(c_char.from_buffer(value))
     try:
-        ret, _ = bpf(1, "IQQQ", fd, addrof(key), addr, 0)
+        ret, _ = bpf(cmd, "IQQQ", fd, addrof(key), addr, 0)
     except OSError as e:
         if e.errno == 2:
             raise KeyError
